@@ -734,7 +734,7 @@ fn case_b() -> impl Strategy<Value = CaseB> {
 
 pub fn run(ctx: &mut Ctx) {
     let fs = ctx.first_shard();
-    ctx.rule = "(A) authenticator over the reference store (contract semantics, call log), MemoryStore, the Option slot and Arc<Mutex<MemoryStore>>: contents of 0-8 credentials over 5 RP IDs (two in a parent/child domain relation, two differing only in letter case) with equal user handles across RPs; assertions and registrations with every allow/exclude-list shape (absent, empty, hits, misses, near misses — half of a held id, a held id plus or minus one byte, the empty id —, ids of another RP, unknown descriptor types); the reference store answers a miss with NoCredentials or with Ok(empty), may fail the first lookup of an assertion, and may gain or lose the named credentials while the user is asked during a registration. (B) contract conformance of every shipped store and lock wrapper on generated save/update/query sequences. (C) the six lock wrappers with another task holding the lock (mutex / write lock / read lock) while a lookup, and through the Arc wrappers an update or a save, is issued: the call may wait but must answer per the contract. Non-trivial = (A) at least two RPs populated and a list that names a foreign RP's id, (B) a query whose expected result differs from 'all credentials'; distinct by case / by (store, contents, query).".into();
+    ctx.rule = "(A) authenticator over the reference store (contract semantics, call log), MemoryStore, the Option slot and Arc<Mutex<MemoryStore>>: contents of 0-8 credentials over 5 RP IDs (two in a parent/child domain relation, two differing only in letter case) with equal user handles across RPs; assertions and registrations with every allow/exclude-list shape (absent, empty, hits, misses, near misses — half of a held id, a held id plus or minus one byte, the empty id —, ids of another RP, unknown descriptor types); the reference store answers a miss with NoCredentials or with Ok(empty), may fail the first lookup of an assertion, and may gain or lose the named credentials while the user is asked during a registration. (B) contract conformance of every shipped store and lock wrapper on generated save/update/query sequences. (C) the six lock wrappers with another task holding the lock (mutex / write lock / read lock) while a lookup, and through the Arc wrappers an update or a save, is issued: the call may wait but must answer per the contract. Since rounds 7/8: lists of 16-45 entries, other algorithm lists at registration, users present but not verified, per-credential PRF inputs keyed by every held credential of the RP. Non-trivial = (A) at least two RPs populated and a list that names a foreign RP's id, (B) a query whose expected result differs from 'all credentials'; distinct by case / by (store, contents, query).".into();
     ctx.assumptions = vec![
         "lookup contract: result = { c | c.rp_id == rp_id and (ids is None or c.id in ids) } as a set; an empty result may be Ok([]) or NoCredentials".into(),
         "'first credential the store lists' is asserted on the reference store, whose listing order is insertion order".into(),
